@@ -222,11 +222,22 @@ impl<W: 'static, R: 'static, T: 'static> XGenerator<W, R, T> {
             }),
             Self::Repeat(gen) => either_i({
                 let gen = to_native!(gen, Self);
-                iter::repeat_with(move || {
-                    let inner: BIter<_, _, _> = Box::new(gen._iter(ns, rt.clone()));
-                    inner
+                let mut current: BIter<_, _, _> = Box::new(gen._iter(ns, rt.clone()));
+                let mut yielded_in_pass = false;
+                iter::from_fn(move || loop {
+                    match current.next() {
+                        Some(v) => {
+                            yielded_in_pass = true;
+                            return Some(v);
+                        }
+                        // a pass that yields nothing would repeat forever: the repetition of nothing is empty
+                        None if !yielded_in_pass => return None,
+                        None => {
+                            yielded_in_pass = false;
+                            current = Box::new(gen._iter(ns, rt.clone()));
+                        }
+                    }
                 })
-                .flatten()
             }),
             Self::TakeWhile(gen, func) => either_j({
                 let inner: BIter<_, _, _> = Box::new(to_native!(gen, Self)._iter(ns, rt.clone()));
